@@ -66,6 +66,11 @@ class World:
             self.T.delete_index(self.I)
         elif op == 'add_index':
             self.T.add_index(self.I)
+        elif op == 'refused_add_index':
+            try:
+                self.U.add_index(self.I)
+            except Exception:
+                pass
         elif op == 'delete_col_a':
             self.T.delete_column(self.a)
         elif op == 'delete_col_b':
